@@ -184,8 +184,42 @@ def wrap_for(kind, text, ch):
     return text
 
 
+STRAY = list(';$%&|~^?\\\'"`!<>=.,:#@()[]{}') + ['é', '☃', '\x00', '\t', '\n', ' ', '0', 'x', '_']
+
+
+def fam_chars(ch):
+    """A valid text with one or two character-level edits anywhere (also at the very beginning and end): the parser is
+    left in every state it has, facing every kind of next character."""
+    k2 = ch.pick(['property', 'property', 'predicate', 'condition', 'expression', 'specification'])
+    if k2 == 'property':
+        m, _ = gen.properties(ch, depth=ch.int(0, 2), wild_time=ch.bool())
+    elif k2 == 'specification':
+        m = ('spec', tuple(gen.properties(ch, depth=1)[0] for _ in range(ch.int(1, 2))))
+    elif k2 == 'expression':
+        m = gen.standalone_terms(ch, depth=ch.int(1, 3))[0]
+    else:
+        m = gen.standalone_predicates(ch, depth=ch.int(1, 3))[0]
+    text = mast.render(('pred', m) if k2 == 'predicate' else m)
+    for _ in range(ch.pick([1, 1, 1, 2])):
+        op = ch.int(0, 5)
+        pos = ch.pick([0, len(text), len(text), ch.int(0, len(text))])
+        c = ch.pick(STRAY)
+        if op <= 2 or not text:
+            text = text[:pos] + c + text[pos:]
+        elif op == 3:
+            text = text[:max(0, pos - 1)] + text[pos:]
+        elif op == 4:
+            text = text[:max(0, pos - 1)] + c + text[pos:]
+        else:
+            text = text[:pos] + text[max(0, pos - 1):pos] + text[pos:]
+    return k2, text
+
+
 def gen_case(ch):
-    fam = ch.pick(['tokens', 'tokens', 'mutation', 'mutation', 'chaos', 'chaos', 'annotations', 'nesting', 'cross'])
+    fam = ch.pick(['tokens', 'tokens', 'mutation', 'mutation', 'chaos', 'chaos', 'annotations', 'nesting', 'cross', 'chars', 'chars'])
+    if fam == 'chars':
+        k2, text = fam_chars(ch)
+        return {'kind': k2 if ch.int(0, 5) else ch.pick(lib.ENTRY_POINTS), 'text': text, 'family': fam}
     kind = ch.pick(lib.ENTRY_POINTS)
     if fam == 'tokens':
         return {'kind': kind, 'text': fam_tokens(ch), 'family': fam}
